@@ -7,7 +7,7 @@
 From Coq Require Import List NArith ZArith Bool Lia.
 From Verif Require Import Common.Util Common.GoInt Sched.Model Sched.Proofs Gen.GasLimit GenProofs.GasLimitProofs BaseFee.Model
      Header.Rules Header.Proofs Validation.Body Validation.Catalogue Validation.ProofsRules Validation.ProofsPacker
-     Validation.Cache Validation.ProofsCache.
+     Validation.Cache Validation.ProofsCache Validation.ExamplesCache.
 Import ListNotations.
 Open Scope N_scope.
 
@@ -50,10 +50,28 @@ Section C01.
     premises cfg pv parent po -> crypto_roundtrip cfg parent po sr ->
     pack_block cfg pv parent po now st0 txs vote sr = Some (b, stp, rcs) ->
     h_total_score parent < h_total_score (b_header b) ->
-    (pv_pos pv = true -> forall st, sanity st = true) ->
+    (pv_pos pv = true -> forall ctx stf, rewards ctx stf = Some stp -> sanity stf = true) ->
     h_time (b_header b) <= vnow + c_interval cfg ->
     process cfg pv parent st0 b vnow = Accepted State stp rcs.
   Proof. exact (packed_block_accepted_lemma State exec apply_updates rewards sanity root_of_state root_of_receipts root_of_txs has_tx find_meta cfg pv parent po now st0 txs vote sr b stp rcs vnow). Qed.
+
+  (* 2b. the same with the score premise discharged from premises on the INPUTS: unique candidates, no uint64 wrap of the
+         total score, and for PoS the proposer's own weight x 10000 reaching the total weight (pos_weight_premise; without
+         it the score rounds to 0 and the packed block IS rejected: pos_score_zero_block_rejected below, finding F14) *)
+  Theorem packed_block_accepted_from_inputs cfg pv parent po now st0 txs vote sr b stp rcs vnow :
+    premises cfg pv parent po -> crypto_roundtrip cfg parent po sr ->
+    pos_weight_premise pv po ->
+    h_total_score parent + max_pos_score + N.of_nat (length (pv_cands pv)) < 18446744073709551616 ->
+    pack_block cfg pv parent po now st0 txs vote sr = Some (b, stp, rcs) ->
+    (pv_pos pv = true -> forall ctx stf, rewards ctx stf = Some stp -> sanity stf = true) ->
+    h_time (b_header b) <= vnow + c_interval cfg ->
+    process cfg pv parent st0 b vnow = Accepted State stp rcs.
+  Proof.
+    intros P C W NW Hp Hs Hn.
+    destruct (pack_block_score _ _ _ _ _ _ _ _ _ _ _ _ _ _ _ _ _ _ _ _ _ Hp) as (ctx & ups & Hc & E).
+    apply (packed_block_accepted cfg pv parent po now st0 txs vote sr b stp rcs vnow P C Hp); [|exact Hs | exact Hn].
+    rewrite E. destruct P as [PT _ _ _ PU _]. exact (packer_score_grows cfg pv parent po now ctx ups PT PU W NW Hc).
+  Qed.
 
   (* 4. the verdict does not depend on the validator's clock once the block is not in the future ... *)
   Theorem verdict_independent_of_clock cfg pv parent st0 b now1 now2 :
@@ -70,7 +88,12 @@ Section C01.
           PoA  list_changes_only_by_authority_events, selection_changes_only_by_watched_events
           PoS  housekeeping_reports_changes, leaders_change_only_by_watched_events.
         Conclusion: a warm validator that has processed ANY sequence of parent/child pairs (accepted or rejected, any
-        branch order) returns for every block the outcome of a cold validator reading the state. *)
+        branch order), whose cache may lose arbitrary entries between two validations (the LRU bound), returns for every
+        block the outcome of a cold validator reading the state.
+        Restart, number of stored siblings (`conflicts`) and repetition: `process` has no such input — the model cannot
+        express a dependence on them; that the CODE has none is what the cold / warm-again / restarted /
+        different-conflicts differential of the harness tests (not a theorem).  scheduler.Seeder's cache is not modelled
+        (the seed is data). *)
   Variable Blk : Type.
   Variable blk_eqb : Blk -> Blk -> bool.
   Variable child : Blk -> Blk -> Prop.
@@ -87,7 +110,8 @@ Section C01.
     (o, match o with Accepted _ _ rcs => Some (ups_of props p b, events_of rcs) | Rejected _ _ => None end).
 
   Theorem verdict_independent_of_cache_poa
-          all_of funded_of mbp_of hayabusa_of (view_of : list acand -> Blk -> pview) ups_of steps :
+          all_of funded_of mbp_of hayabusa_of (view_of : list acand -> Blk -> pview) ups_of
+          (steps : list ((pcache Blk -> pcache Blk) * (Blk * Blk))) :
     (forall a b, blk_eqb a b = true <-> a = b) ->
     let judge := outcome_and_feedback view_of ups_of in
     (forall p b ups ev, child p b -> snd (judge (poa_fresh Blk all_of funded_of mbp_of p) p b) = Some (ups, ev) ->
@@ -97,30 +121,31 @@ Section C01.
         (forall a, In a (ev_parties ev) -> existsb (fun c => ac_endorsor c =? a) (all_of p) = false) ->
         (forall c, In c (all_of p) -> funded_of b (ac_master c) (ac_endorsor c) = funded_of p (ac_master c) (ac_endorsor c)) /\
         mbp_of b = mbp_of p) ->
-    Forall (fun pb => child (fst pb) (snd pb)) steps ->
-    poa_run Blk blk_eqb (outcome State) all_of funded_of mbp_of hayabusa_of judge [] steps =
-    map (fun pb => process cfg (view_of (poa_fresh Blk all_of funded_of mbp_of (fst pb)) (fst pb)) (parent_hdr (fst pb))
-                           (st0_of (fst pb)) (block_of (snd pb)) (clock_of (snd pb))) steps.
+    Forall (fun s => only_loses_p Blk blk_eqb (fst s) /\ child (fst (snd s)) (snd (snd s))) steps ->
+    poa_run_lossy Blk blk_eqb (outcome State) all_of funded_of mbp_of hayabusa_of judge [] steps =
+    map (fun s => let p := fst (snd s) in let b := snd (snd s) in
+                  process cfg (view_of (poa_fresh Blk all_of funded_of mbp_of p) p) (parent_hdr p) (st0_of p) (block_of b) (clock_of b)) steps.
   Proof.
     intros Heq judge HA HF Hs.
-    rewrite (poa_run_is_cold Blk blk_eqb Heq (outcome State) child all_of funded_of mbp_of hayabusa_of judge HA HF steps [] ltac:(intros b e X; discriminate) Hs).
+    rewrite (poa_run_lossy_is_cold Blk blk_eqb Heq (outcome State) child all_of funded_of mbp_of hayabusa_of judge HA HF steps [] ltac:(intros b e X; discriminate) Hs).
     reflexivity.
   Qed.
 
   Theorem verdict_independent_of_cache_pos
-          hk_of leaders_of leaders_pre (view_of : list cand -> Blk -> pview) ups_of steps :
+          hk_of leaders_of leaders_pre (view_of : list cand -> Blk -> pview) ups_of
+          (steps : list ((scache Blk -> scache Blk) * (Blk * Blk))) :
     (forall a b, blk_eqb a b = true <-> a = b) ->
     let judge := outcome_and_feedback view_of ups_of in
     (forall p, hk_of p = false -> leaders_of p = leaders_pre p) ->
     (forall p b ev, child p b -> snd (judge (leaders_of p) p b) = Some ([], ev) -> ev_beneficiary_set ev = false ->
         leaders_pre b = leaders_of p) ->
-    Forall (fun pb => child (fst pb) (snd pb)) steps ->
-    pos_run Blk blk_eqb (outcome State) hk_of leaders_of judge [] steps =
-    map (fun pb => process cfg (view_of (leaders_of (fst pb)) (fst pb)) (parent_hdr (fst pb))
-                           (st0_of (fst pb)) (block_of (snd pb)) (clock_of (snd pb))) steps.
+    Forall (fun s => only_loses_s Blk blk_eqb (fst s) /\ child (fst (snd s)) (snd (snd s))) steps ->
+    pos_run_lossy Blk blk_eqb (outcome State) hk_of leaders_of judge [] steps =
+    map (fun s => let p := fst (snd s) in let b := snd (snd s) in
+                  process cfg (view_of (leaders_of p) p) (parent_hdr p) (st0_of p) (block_of b) (clock_of b)) steps.
   Proof.
     intros Heq judge H1 H2 Hs.
-    rewrite (pos_run_is_cold Blk blk_eqb Heq (outcome State) child hk_of leaders_of leaders_pre judge H1 H2 steps [] ltac:(intros b e X; discriminate) Hs).
+    rewrite (pos_run_lossy_is_cold Blk blk_eqb Heq (outcome State) child hk_of leaders_of leaders_pre judge H1 H2 steps [] ltac:(intros b e X; discriminate) Hs).
     reflexivity.
   Qed.
 End C01.
@@ -142,6 +167,33 @@ Theorem poa_v2_score_positive pt T cs me mep t : 0 < T ->
   find_me me (props cs) = Some mep -> is_scheduled pt T (addrs (seq_of me (pks cs))) t me = true ->
   1 <= snd (updates_v2 pt T (seq_of me (pks cs)) mep t) <= N.of_nat (length cs).
 Proof. exact (v2_score_positive pt T cs me mep t). Qed.
+
+(* 3b. PoA v1 and PoS scores; the packer's total score grows for all three schedulers from premises on the inputs *)
+Theorem poa_v1_score_positive hsh pt T cs me mep t :
+  NoDup (map cand_addr cs) -> find_me me (props cs) = Some mep ->
+  1 <= snd (updates_v1 hsh pt T (actives_v1 me (props cs)) mep t) <= N.of_nat (length cs).
+Proof. exact (v1_score_positive hsh pt T cs me mep t). Qed.
+
+Theorem pos_score_at_least_one pt T cs me mep total t : 0 < T ->
+  find_me me (props cs) = Some mep -> is_scheduled pt T (addrs (seq_of me (pks cs))) t me = true ->
+  sumN (ProofsUpdates.weights (seq_of me (pks cs))) * max_pos_score < 18446744073709551616 ->
+  sumN (ProofsUpdates.weights (seq_of me (pks cs))) <= total -> 0 < total -> total <= p_weight mep * max_pos_score ->
+  1 <= snd (updates_pos pt T (seq_of me (pks cs)) mep total t) <= max_pos_score.
+Proof. exact (pos_score_positive pt T cs me mep total t). Qed.
+
+Theorem packer_total_score_grows cfg pv parent po now ctx ups :
+  0 < c_interval cfg -> NoDup (map cand_addr (pv_cands pv)) -> pos_weight_premise pv po ->
+  h_total_score parent + max_pos_score + N.of_nat (length (pv_cands pv)) < 18446744073709551616 ->
+  schedule_ctx cfg pv parent po now = Some (ctx, ups) ->
+  h_total_score parent < x_total_score ctx.
+Proof. exact (packer_score_grows cfg pv parent po now ctx ups). Qed.
+
+(* 5c. the four cache hypotheses instantiated on histories in which list, selection and leader group really change *)
+Example cache_hypotheses_hold_on_a_history :
+  poa_run N N.eqb (list acand) x_all x_funded x_mbp (fun _ => false) x_judge [] x_steps =
+    map (fun pb => poa_fresh N x_all x_funded x_mbp (fst pb)) x_steps /\
+  pos_run N N.eqb (list cand) y_hk y_of y_judge [] y_steps = map (fun pb => y_of (fst pb)) y_steps.
+Proof. exact (conj poa_cache_hypotheses_instance pos_cache_hypotheses_instance). Qed.
 
 (* ---- non-vacuity: the concrete PoA-v2 parent of Properties/C02.v; the model packer builds a block on it and the
         validator model accepts it with the same state *)
@@ -182,6 +234,56 @@ Proof.
   - split; [reflexivity|]. split; [reflexivity|]. intros _. discriminate.
 Qed.
 
+(* ---- PoS after GALACTICA: the theorem (input-premise form) applied to a concrete instance *)
+Definition p_cfg := mkCfg 0 0 0 0 3 10 39.
+Definition p_parent := mkH 5 1000 10000000 0 7500000 50 0 1 777 0 (0, 0) false (Some 10000000000000) 146 (Some 11) (Some (0, 0)).
+Definition p_cands := [ mkC (mkP 11 true 60) 2 111 (Some 555); mkC (mkP 22 true 40) 1 222 None ].
+Definition p_pv (total : N) := mkPV true p_cands total (fun _ => 0).
+Definition p_pack total := pack_block N ex_exec (fun _ _ st _ => st) (fun _ st => Some st) (fun st => st)
+          (fun rs => N.of_nat (length rs)) (fun ts => N.of_nat (length ts)) (fun _ _ => false) (fun _ => None)
+          p_cfg (p_pv total) p_parent ex_po 1003 7 ex_txs true ex_sr.
+Definition p_process total b now := process N ex_exec (fun _ _ st _ => st) (fun _ st => Some st) (fun _ => true) (fun st => st)
+          (fun rs => N.of_nat (length rs)) (fun ts => N.of_nat (length ts)) (fun _ _ => false) (fun _ => None)
+          p_cfg (p_pv total) p_parent 7 b now.
+
+Lemma p_premises total : premises N ex_exec p_cfg (p_pv total) p_parent ex_po /\ crypto_roundtrip p_cfg p_parent ex_po ex_sr.
+Proof.
+  split.
+  - constructor.
+    + reflexivity.
+    + reflexivity.
+    + split; [discriminate | reflexivity].
+    + reflexivity.
+    + constructor; [cbn; intuition discriminate|]. constructor; [cbn; intuition | constructor].
+    + intros ctx st t st' r E. unfold ex_exec in E. destruct (t_origin_ok t) eqn:Eo; cbn [andb] in E; [|discriminate].
+      destruct (N.leb_spec 21000 (t_gas t)); cbn [andb] in E; [|discriminate].
+      destruct (N.leb_spec (t_gas t) (x_gas_limit ctx)); [|discriminate]. inversion E; subst. cbn [r_gas]. auto.
+  - split; [reflexivity|]. split; [reflexivity|]. intros _. discriminate.
+Qed.
+
+Example pos_galactica_packed_block_accepted :
+  exists b stp rcs, p_pack 100 = Some (b, stp, rcs) /\ h_base_fee (b_header b) = Some 10000000000000 /\
+                    h_beneficiary (b_header b) = 555 /\ forall vnow, 1020 <= vnow + 10 -> p_process 100 b vnow = Accepted N stp rcs.
+Proof.
+  eexists. eexists. eexists. split; [vm_compute; reflexivity|]. split; [reflexivity|]. split; [reflexivity|].
+  intros vnow Hn. destruct (p_premises 100) as [P C].
+  eapply (packed_block_accepted_from_inputs N ex_exec _ _ (fun _ => true) _ _ _ _ _ p_cfg (p_pv 100) p_parent ex_po 1003 7 ex_txs true ex_sr);
+    [exact P | exact C | | reflexivity | vm_compute; reflexivity | intros; reflexivity | exact Hn].
+  intros _ mep Hf. vm_compute in Hf. inversion Hf; subst mep. vm_compute. repeat split; (reflexivity || discriminate).
+Qed.
+
+(* ---- the PoS corner the weight premise excludes: online weight x 10000 < total weight => score 0 => the packer's block
+        does not raise the total score and validators REJECT it, every other premise holding (refutes the statement
+        without pos_weight_premise; replayed on the real packer / consensus by the harness: known finding F14) *)
+Example pos_score_zero_block_rejected :
+  exists b stp rcs, p_pack 100000000 = Some (b, stp, rcs) /\ h_total_score (b_header b) = h_total_score p_parent /\
+                    p_process 100000000 b 2000 = Rejected N (Critical 5) /\
+                    premises N ex_exec p_cfg (p_pv 100000000) p_parent ex_po /\ crypto_roundtrip p_cfg p_parent ex_po ex_sr.
+Proof.
+  eexists. eexists. eexists. split; [vm_compute; reflexivity|]. split; [reflexivity|]. split; [vm_compute; reflexivity|].
+  exact (p_premises 100000000).
+Qed.
+
 Print Assumptions gas_limit_packer_valid.
 Print Assumptions schedule_slot_accepted.
 Print Assumptions packed_block_accepted.
@@ -191,3 +293,10 @@ Print Assumptions verdict_independent_of_cache_pos.
 Print Assumptions candidates_reads_agree.
 Print Assumptions poa_hypothesis_scope.
 Print Assumptions poa_v2_score_positive.
+Print Assumptions packed_block_accepted_from_inputs.
+Print Assumptions packer_total_score_grows.
+Print Assumptions poa_v1_score_positive.
+Print Assumptions pos_score_at_least_one.
+Print Assumptions pos_galactica_packed_block_accepted.
+Print Assumptions pos_score_zero_block_rejected.
+Print Assumptions cache_hypotheses_hold_on_a_history.
